@@ -125,6 +125,7 @@ type cDatagram struct {
 	closeSeen bool
 	overlapCB bool
 	protected bool
+	reported  bool
 }
 
 type cCallback struct {
@@ -134,6 +135,19 @@ type cCallback struct {
 	begin  int
 	endSeq int
 	tx     *cTx
+}
+
+// cSuspect: a response for an in-flight transaction was not delivered to it
+// while the client was handling a timeout event for the same id. That is
+// admissible iff that handling ends the transaction (the final timeout won the
+// race and the response is "late"); it is a violation if the handling merely
+// retransmits. Judged when the callback returns.
+type cSuspect struct {
+	tx    *cTx
+	d     *cDatagram
+	cb    *cCallback
+	class string
+	msg   string
 }
 
 type cClose struct {
@@ -203,6 +217,8 @@ type clientEngine struct {
 	closeOK             *cClose
 	closeBegan          bool
 	cbActive            map[[stun.TransactionIDSize]byte]int
+	cbLive              map[[stun.TransactionIDSize]byte][]*cCallback
+	suspects            []cSuspect
 	cbStack             map[int][]*cCallback
 	fallbackCalls       []cCall
 	idCounter           int
@@ -402,6 +418,7 @@ func (a *wrapAgent) SetHandler(h stun.Handler) error {
 		isTimeout := errors.Is(ev.Error, stun.ErrTransactionTimeOut)
 		if isTimeout {
 			e.cbActive[ev.TransactionID]++
+			e.cbLive[ev.TransactionID] = append(e.cbLive[ev.TransactionID], cb)
 			cb.tx = e.byID[ev.TransactionID]
 			if e.cur != nil && e.cur.decodes && e.cur.id == ev.TransactionID {
 				// the reader is in the middle of processing a datagram with this id
@@ -427,6 +444,14 @@ func (a *wrapAgent) SetHandler(h stun.Handler) error {
 		h(ev)
 		if isTimeout {
 			e.cbActive[ev.TransactionID]--
+			l := e.cbLive[ev.TransactionID]
+			for i, x := range l {
+				if x == cb {
+					e.cbLive[ev.TransactionID] = append(l[:i:i], l[i+1:]...)
+					break
+				}
+			}
+			e.resolveSuspects(cb)
 		}
 		cb.endSeq = e.r.Seq()
 		if tk != nil {
@@ -465,9 +490,6 @@ func (c *simConn) Read(b []byte) (int, error) {
 			return true
 		}
 		if len(e.inbox) > 0 {
-			if e.avoidKnown && e.nestedDo == 0 && e.inbox[0].decodes && e.cbActive[e.inbox[0].id] > 0 {
-				return false // known finding K-c: do not create the overlap in this run
-			}
 			return true
 		}
 		return e.noConnClose && e.closerWaiting()
@@ -910,6 +932,38 @@ func firstDiff(a, b []byte) int {
 
 // finishDatagram is called when the reader comes back for the next Read: the
 // processing of e.cur is over; check what the reference router predicts.
+// lostResponse reports (now or when the overlapping callback returns) that
+// datagram d did not reach the in-flight transaction tx.
+func (e *clientEngine) lostResponse(tx *cTx, d *cDatagram, class, msg string) {
+	if live := e.cbLive[d.id]; len(live) > 0 {
+		e.suspects = append(e.suspects, cSuspect{tx: tx, d: d, cb: live[len(live)-1], class: class, msg: msg})
+		return
+	}
+	e.finishing = d
+	e.fail(tx, "C12", class, "%s", msg)
+}
+
+func (e *clientEngine) resolveSuspects(cb *cCallback) {
+	keep := e.suspects[:0]
+	for _, sp := range e.suspects {
+		if sp.cb != cb {
+			keep = append(keep, sp)
+			continue
+		}
+		if len(sp.tx.calls) > 0 {
+			e.stats["probe_response_lost_race_against_final_timeout"]++
+			continue
+		}
+		if e.viol == nil {
+			save := e.cur
+			e.cur = sp.d
+			e.fail(sp.tx, "C12", sp.class, "%s (the timeout event handled meanwhile did not end the transaction)", sp.msg)
+			e.cur = save
+		}
+	}
+	e.suspects = keep
+}
+
 func (e *clientEngine) finishDatagram() {
 	d := e.cur
 	e.cur = nil
@@ -922,9 +976,9 @@ func (e *clientEngine) finishDatagram() {
 		return // handlers invoked with it are flagged at invocation time
 	}
 	if tx := d.inflight; tx != nil {
-		if d.delivered == 0 && len(tx.calls) == 0 && !closing {
-			class := "response-not-delivered"
-			e.fail(tx, "C12", class, "datagram (%s, id=%x) was read while %s was in flight, processing finished, and its handler was not invoked (fallback invocations with it: %d)", d.kind, d.id[8:], tx.name(), d.fallback)
+		if d.delivered == 0 && len(tx.calls) == 0 && !closing && !d.reported {
+			d.reported = true
+			e.lostResponse(tx, d, "response-not-delivered", fmt.Sprintf("datagram (%s, id=%x) was read while %s was in flight, processing finished, and its handler was not invoked (fallback invocations with it: %d)", d.kind, d.id[8:], tx.name(), d.fallback))
 		}
 		return
 	}
@@ -1166,7 +1220,10 @@ func (e *clientEngine) fallback(ev stun.Event) {
 	}
 	// in flight both when the datagram was read and now: it must not go to the fallback
 	if tx := d.inflight; tx != nil && len(tx.calls) == 0 && e.byID[d.id] == tx {
-		e.fail(tx, "C12", "inflight-to-fallback", "datagram (%s, id=%x) went to the fallback handler while %s is in flight", d.kind, d.id[8:], tx.name())
+		if !d.reported {
+			d.reported = true
+			e.lostResponse(tx, d, "inflight-to-fallback", fmt.Sprintf("datagram (%s, id=%x) went to the fallback handler while %s is in flight", d.kind, d.id[8:], tx.name()))
+		}
 	}
 }
 
@@ -1504,6 +1561,7 @@ func (e *clientEngine) Setup(r *Run) {
 	e.stats = map[string]int{}
 	e.byID = map[[stun.TransactionIDSize]byte]*cTx{}
 	e.cbActive = map[[stun.TransactionIDSize]byte]int{}
+	e.cbLive = map[[stun.TransactionIDSize]byte][]*cCallback{}
 	e.cbStack = map[int][]*cCallback{}
 	e.lastNow = map[int]time.Time{}
 	e.now = baseTime
@@ -1542,7 +1600,7 @@ func (e *clientEngine) Setup(r *Run) {
 	e.closeErrAgent = r.Pct(15, "closeerr-agent")
 	e.bigPct = []int{0, 5, 30}[r.Choose(3, "bigpct")]
 	e.closePct = []int{0, 1, 3}[r.Choose(3, "closepct")]
-	e.avoidKnown = !r.Pct(15, "allow-known")
+	e.avoidKnown = false // no open known finding needs its precondition avoided
 	e.spontLeft = 12
 	e.chaosCap = 3000
 	switch prof {
